@@ -15,6 +15,81 @@ COMMON_ASSUMPTIONS = [
 ]
 
 PROPS = {
+    "C14": dict(
+        technique="differential execution against an independent RFC 1035 §4.1.4 decoder; panic monitor; Miri/ASan on the same workload",
+        rule="exhaustive: every buffer of length <= 5 over the 12 significant octets {0,1,2,3,63,64,0x80,0xbf,0xc0,0xc1,0xff,'a'} "
+             "at every start offset 0..len+1 (1 875 494 (buffer,start) pairs; length <= 3 under Miri); plus seeded structured "
+             "buffers up to ~600 octets (pointer chains, 255/256-octet names, 127/128 labels, forward/self pointers, "
+             "truncations) at every name start, a random offset and the end. All of try_from_compressed, skip_compressed, "
+             "try_from_uncompressed(_all), validate_uncompressed(_all) are compared on accept/reject, name and length. "
+             "distinct = distinct outcome classes (accept/reject reason, label count, pointer count, field length, "
+             "skip length, uncompressed verdicts)",
+        assumptions=COMMON_ASSUMPTIONS + ["error *kinds* are not compared, only acceptance, name and length"],
+        quick=plans(dict(build="dbg", nshards=16), dict(build="miri", nshards=4, timeout=900)),
+        thorough=plans(dict(build="dbg", nshards=16), dict(build="rel", nshards=16),
+                       dict(build="asan", nshards=16, scale=0.3), dict(build="miri", nshards=16, scale=1.0, timeout=3000)),
+        min_evaluations=1500000,
+    ),
+    "C15": dict(
+        technique="reference-cursor monitor: every Reader operation is compared with an independent decoder on "
+                  "accept/reject, every field and the new position; panic monitor; Miri/ASan on the same workload",
+        rule="seeded messages built by the harness encoder (0-2 questions, 0-2 records per section over 28 class/type "
+             "combinations, compressed and plain names, TTLs with the top bit set), 0-2 byte-level mutations (truncation "
+             "at field boundaries, counts, RDLENGTH, pointer retargeting, inserts/deletes/flips), plus random octet strings; "
+             "each driven by 1-14 random operations out of read_question, skip_question, read_rr, skip_rr, "
+             "peek_rr+{fields,owner,skip,parse}, mark, rewind, at_eom, message_to_cursor. evaluations = operations "
+             "judged; distinct = (first three operations, ended at EOM or not) classes",
+        assumptions=COMMON_ASSUMPTIONS + ["TTLs are compared after the RFC 2181 §8 interpretation (top bit set = 0)"],
+        quick=plans(dict(build="dbg", nshards=16), dict(build="miri", nshards=4, timeout=900)),
+        thorough=plans(dict(build="dbg", nshards=16), dict(build="rel", nshards=16),
+                       dict(build="asan", nshards=16, scale=0.3), dict(build="miri", nshards=16, timeout=3000)),
+        min_evaluations=500000,
+    ),
+    "C16": dict(
+        technique="differential execution against a reference name model (text parser, RFC 4034 order, case folding); "
+                  "model-based test of NameBuilder with atomicity oracle; Miri on the unsafe DST conversions",
+        rule="seeded pools of 2-5 valid names (boundary shapes: root, 63-octet labels, 255-octet names, 127 labels, "
+             "arbitrary octets, case variants, shifted label boundaries, parents/children/siblings); every name: "
+             "Display->FromStr round trip, independent parse of the rendering, all accessors; every ordered pair: "
+             "==, Hash, cmp, eq_or_subdomain_of, LowercaseName, labels; triples: transitivity and sorting; random and "
+             "mutated text strings: acceptance equals the reference parser's; random NameBuilder programs with "
+             "failed-operation atomicity. distinct = outcome classes (label count, wire length bucket, wildcard, "
+             "escapes; pair relation; text verdict; builder outcome)",
+        assumptions=COMMON_ASSUMPTIONS + ["hash comparison uses std DefaultHasher with its fixed keys; a 2^-64 collision would be a false alarm"],
+        quick=plans(dict(build="dbg", nshards=16), dict(build="miri", nshards=4, timeout=900)),
+        thorough=plans(dict(build="dbg", nshards=16), dict(build="rel", nshards=16),
+                       dict(build="asan", nshards=16, scale=0.3), dict(build="miri", nshards=16, scale=1.0, timeout=3000)),
+        min_evaluations=500000,
+    ),
+    "C18": dict(
+        technique="differential execution against per-type reference validators and a reference decompressing reader; "
+                  "writer->reader round trip; panic monitor; Miri/ASan",
+        rule="per case: 4 (class,type) pairs out of 28 (all types the library knows, CH A, class-specific types in the "
+             "wrong class, unknown types), each with valid RDATA, two successive single-octet mutations and random junk, "
+             "checked against validate(); a hand-encoded message with 1-4 records (compressed names) read with "
+             "Rdata::read at the true span, neighbouring lengths/cursors, as a different type, at/after the end of the "
+             "message, random (cursor,RDLENGTH) and after damaging one octet; and 1-5 valid records written by the Writer "
+             "in a random compression mode and read back. distinct = (operation, class, type, verdict) classes",
+        assumptions=COMMON_ASSUMPTIONS + ["under standard (case-insensitive) compression, read-back names are compared ignoring ASCII case"],
+        quick=plans(dict(build="dbg", nshards=16), dict(build="miri", nshards=4, timeout=900)),
+        thorough=plans(dict(build="dbg", nshards=16), dict(build="rel", nshards=16),
+                       dict(build="asan", nshards=16, scale=0.3), dict(build="miri", nshards=16, timeout=3000)),
+        min_evaluations=500000,
+    ),
+    "C19": dict(
+        technique="all-pairs/all-triples check of Rdata::equals against a reference equality on collision-rich pools; "
+                  "model check of RdataSetOwned insertion order; Miri",
+        rule="per case one (class,type) out of 21 (all name-bearing pre-RFC 3597 types, CH A, IN SRV, the same types in "
+             "other classes, nameless and unknown types) and a pool of 3-9 RDATA built from 5 names with case flips, "
+             "trailing junk, truncations and single-octet mutations; all ordered pairs (meaning, reflexivity, symmetry), "
+             "all triples (transitivity), and a shuffled insertion sequence into RdataSetOwned via insert and from_iter. "
+             "distinct = (class, type, well-formedness of both sides, expected verdict) and set-shape classes",
+        assumptions=COMMON_ASSUMPTIONS,
+        quick=plans(dict(build="dbg", nshards=16), dict(build="miri", nshards=4, timeout=900)),
+        thorough=plans(dict(build="dbg", nshards=16), dict(build="rel", nshards=16),
+                       dict(build="asan", nshards=16, scale=0.3), dict(build="miri", nshards=16, timeout=3000)),
+        min_evaluations=500000,
+    ),
     "C17": dict(
         technique="exhaustive execution of the real conversions with round-trip and table oracles",
         rule="every 16-bit value of TYPE/QTYPE/CLASS/QCLASS/extended RCODE and every 8-bit opcode/RCODE value is "
